@@ -92,3 +92,157 @@ def run_c09(ctx):
            'model_checked_inputs': 'MergeSort.tla: all arrays of length 0..%d x 7 rankers satisfy the laws' % mlen,
            'comparison_traces_validated': ntrace, 'comparison_traces_drifting': len(drift)}
     return 'exploration', cov, ['rankers are pure functions of the value token', 'TLC evaluates the laws over recorded observations; it does not execute Go']
+
+
+# ---------------------------------------------------------------------------
+# C07 / C08: collator tables
+
+LAWS = ['L1-reflexive', 'L2-mirror', 'L3-transitive', 'no-panic', 'L4-documented-order',
+        'L8-compare-agrees-with-rank', 'L8-compare-symmetric', 'L8-compare-transitive']
+C07_LAWS = {'L1-reflexive', 'L2-mirror', 'L3-transitive', 'no-panic', 'L4-documented-order'}
+C08_LAWS = {'L8-compare-agrees-with-rank', 'L8-compare-symmetric', 'L8-compare-transitive', 'no-panic'}
+LT, EQ, GT = 1, 2, 3
+
+
+def witnesses(t, law):
+    """index tuples violating the law in table t (computed from the matrices,
+    to describe what TLC rejected)"""
+    R, E, n = t['rank'], t['eq'], len(t['vals'])
+    out = []
+    rng = range(n)
+    if law == 'L1-reflexive':
+        out = [(i,) for i in rng if R[i][i] != EQ]
+    elif law == 'L2-mirror':
+        out = [(i, j) for i in rng for j in rng if R[i][j] != (0 if R[j][i] == 0 else 4 - R[j][i])]
+    elif law == 'L3-transitive':
+        out = [(i, j, k) for i in rng for j in rng for k in rng
+               if R[i][j] in (LT, EQ) and R[j][k] in (LT, EQ) and R[i][k] not in (LT, EQ)]
+    elif law == 'no-panic':
+        out = [(i, j) for i in rng for j in rng if R[i][j] == 0 or E[i][j] == 2]
+    elif law == 'L4-documented-order':
+        out = [('order',)]
+    elif law == 'L8-compare-agrees-with-rank':
+        out = [(i, j) for i in rng for j in rng if (E[i][j] == 1) != (R[i][j] == EQ)]
+    elif law == 'L8-compare-symmetric':
+        out = [(i, j) for i in rng for j in rng if E[i][j] != E[j][i]]
+    elif law == 'L8-compare-transitive':
+        out = [(i, j, k) for i in rng for j in rng for k in rng if E[i][j] == 1 and E[j][k] == 1 and E[i][k] != 1]
+    return out
+
+
+def collate(ctx):
+    """runs the whole collator machinery once; returns (tables, failed, stateful, cyclic cases, crash)"""
+    ctx.build_harness()
+    maxlen, nleaf = (2, 3)
+    out = _tlc_const(ctx, 'CollatorLaws', {'MODE': '"gen"', 'MaxLen': maxlen, 'NLeaf': nleaf}, name='CL_gen')
+    uf = ctx.path('universe.ndjson')
+    nuniv = 0
+    with open(uf, 'w') as f:
+        for l in out.splitlines():
+            if l.startswith('"{'):
+                f.write(json.loads(l) + '\n')
+                nuniv += 1
+    tf = ctx.path('tables.ndjson')
+    r = subprocess.run([ctx.vh, 'collate-tables', '-universe', uf, '-out', tf], capture_output=True, text=True, timeout=1200)
+    if r.returncode != 0:
+        raise Infra('collate-tables failed: %s %s' % (r.stdout[-1000:], r.stderr[-1500:]))
+    tables = [json.loads(l) for l in open(tf)]
+    # self-containing values: a process of its own (a stack overflow is fatal)
+    cf_, cc = ctx.path('ctables.ndjson'), ctx.path('ccases.ndjson')
+    crash = None
+    try:
+        r = subprocess.run([ctx.vh, 'collate-cyclic', '-universe', uf, '-out', cf_, '-cases', cc], capture_output=True, text=True, timeout=120)
+        if r.returncode != 0:
+            crash = (r.stderr or r.stdout)[:600]
+    except subprocess.TimeoutExpired:
+        crash = 'the process comparing self-containing values did not finish within 120 s'
+    cases = [json.loads(l) for l in open(cc)] if os.path.exists(cc) else []
+    ctabs = [json.loads(l) for l in open(cf_)] if os.path.exists(cf_) and not crash else []
+    tables += ctabs
+    lawf = ctx.path('tables_tlc.ndjson')
+    with open(lawf, 'w') as f:
+        for t in tables:
+            f.write(json.dumps({k: t[k] for k in ('name', 'mode', 'vals', 'rank', 'eq')}) + '\n')
+    out = _tlc_const(ctx, 'CollatorLaws', {'MODE': '"check"', 'MaxLen': 0, 'NLeaf': 1}, env={'TRACE': lawf}, name='CL_check')
+    m = re.search(r'<<\s*"FAILED",\s*\{(.*?)\}\s*>>', out, re.S)
+    s = re.search(r'<<\s*"STATEFUL",\s*\{(.*?)\}\s*>>', out, re.S)
+    if not m or not s:
+        raise Infra('CollatorLaws gave no verdict:\n' + out[-2000:])
+    failed = [(int(a), int(b)) for a, b in re.findall(r'<<\s*(\d+),\s*(\d+)\s*>>', m.group(1))]
+    stateful = [(int(a), int(b)) for a, b in re.findall(r'<<\s*(\d+),\s*(\d+)\s*>>', s.group(1))]
+    return tables, failed, stateful, cases, crash, nuniv
+
+
+def judge_collator(ctx, prop, laws):
+    tables, failed, stateful, cases, crash, nuniv = collate(ctx)
+    nv = 0
+    for ti, n in failed:
+        law = LAWS[n - 1]
+        if law not in laws:
+            continue
+        t = tables[ti - 1]
+        wit = witnesses(t, law)
+        if law == 'no-panic':
+            # a panic of RankValues concerns C07, of CompareValues C08
+            wit = [w for w in wit if (t['rank'][w[0]][w[1]] == 0 if prop == 'C07' else t['eq'][w[0]][w[1]] == 2)]
+            if not wit:
+                continue
+        fam = t['name'].split('/')[1] if t['name'].startswith('leaf/') else t['name']
+        shown = [[t['show'][i] for i in w if isinstance(i, int)] for w in wit[:4]]
+        special = 'none'
+        flat = [t['show'][i] for w in wit for i in w if isinstance(i, int)]
+        if fam.startswith('float') and wit and all(any('NaN' in t['show'][i] for i in w if isinstance(i, int)) for w in wit):
+            special = 'nan'
+        if fam.startswith('complex'):
+            special = 'complex'
+        what = 'table %s (%s collator): law %s fails, e.g. for %s' % (t['name'], t['mode'], law, json.dumps(shown))
+        ctx.violation(what, {'engine': 'collate', 'table': t['name'], 'mode': t['mode'], 'law': law, 'witnesses': shown,
+                             'values': t['show'], 'rank': t['rank'], 'eq': t['eq'],
+                             'signature': {'engine': 'collate', 'family': fam.rstrip('0123456789') if t['name'].startswith('leaf/') else fam,
+                                           'law': law, 'special': special}})
+        nv += 1
+    if prop == 'C07':
+        for a, b in stateful[:5]:
+            ctx.violation('tables %s differ between collator modes %s and %s: the result depends on earlier calls' % (
+                tables[a - 1]['name'], tables[a - 1]['mode'], tables[b - 1]['mode']),
+                {'engine': 'collate', 'table': tables[a - 1]['name'], 'modes': [tables[a - 1]['mode'], tables[b - 1]['mode']],
+                 'signature': {'engine': 'collate', 'family': tables[a - 1]['name'], 'law': 'L9-stateless', 'special': 'none'}})
+    if prop == 'C08':
+        if crash:
+            ctx.violation('comparing / ranking self-containing values killed the process: ' + crash,
+                          {'engine': 'collate', 'kind': 'crash', 'detail': crash,
+                           'signature': {'engine': 'collate', 'family': 'cyclic', 'law': 'terminates', 'special': 'crash'}})
+        for c in cases:
+            if c['outcome'] != 'depth-panic':
+                ctx.violation('%s on a %s: %s %s (expected the documented depth-limit panic)' % (c['op'], c['case'], c['outcome'], c['detail']),
+                              {'engine': 'collate', 'kind': 'cyclic', 'case': c,
+                               'signature': {'engine': 'collate', 'family': 'cyclic', 'law': 'depth-limit-panic', 'special': c['outcome']}})
+        for a, b in stateful[:5]:
+            if 'after-panic' in tables[a - 1]['mode'] or 'after-panic' in tables[b - 1]['mode']:
+                ctx.violation('after a depth-limit panic the collator no longer reproduces table %s' % tables[a - 1]['name'],
+                              {'engine': 'collate', 'table': tables[a - 1]['name'],
+                               'signature': {'engine': 'collate', 'family': 'cyclic', 'law': 'usable-after-panic', 'special': 'none'}})
+    cells = sum(len(t['vals']) ** 2 for t in tables)
+    triples = sum(len(t['vals']) ** 3 for t in tables)
+    nontrivial = sum(len(t['vals']) * (len(t['vals']) - 1) for t in tables if t['mode'] == 'fresh')
+    cov = {'evaluations': cells * 2, 'distinct_nontrivial': nontrivial, 'exhaustive': True,
+           'rule': 'TLC generates the structural universe (%d descriptors: sequences, maps, nested, with nil) which the harness '
+                   'concretises in every container kind and several leaf types, plus corner tables of every primitive type; '
+                   'every table is recorded with a fresh collator per pair and with one shared collator (and after a depth-limit '
+                   'panic); TLC checks the laws over all pairs and all triples of each table; non-trivial = ordered pairs of '
+                   'distinct values per table' % nuniv,
+           'tables': len(tables), 'pairs': cells, 'triples_checked': triples, 'laws_failed': len(failed), 'stateful_pairs': len(stateful),
+           'cyclic_cases': len(cases),
+           'samples': [{'table': tables[len(tables) // 2]['name'], 'values': tables[len(tables) // 2]['show'][:6],
+                        'rank_row': tables[len(tables) // 2]['rank'][0][:6]}]}
+    return 'exploration', cov, ['values of one static type per table ("values of one type")',
+                                'TLC evaluates the laws over recorded tables; IEEE arithmetic is executed, not reasoned about',
+                                'the numeric universe is its corner structure, not all numbers']
+
+
+def run_c07(ctx):
+    return judge_collator(ctx, 'C07', C07_LAWS)
+
+
+def run_c08(ctx):
+    return judge_collator(ctx, 'C08', C08_LAWS)
